@@ -208,6 +208,8 @@ def build_harness(name, harness_srcs, repo_srcs, extra_flags=(), shim="shim_time
     keep only the binary, cached under a hash of everything that went into it."""
     hs = [os.path.join(VERIF, "harness", f) for f in harness_srcs]
     hdeps = glob.glob(os.path.join(VERIF, "harness", "*.h"))
+    if os.environ.get("VERIF_COV"):
+        return _build_cov(name, hs, repo_srcs, extra_flags, shim, libs)
     key = _hash_files(repo_sources() + hs + hdeps, " ".join(list(extra_flags) + list(repo_srcs) + SAN + [shim or ""]))
     d = os.path.join(CACHE, "bin", key)
     exe = os.path.join(d, name)
@@ -248,6 +250,27 @@ def _build_harness_locked(name, hs, repo_srcs, extra_flags, shim, libs, d, exe):
         os.replace(exe + ".tmp", exe)
     finally:
         shutil.rmtree(tmp, ignore_errors=True)
+    return exe
+
+
+def _build_cov(name, hs, repo_srcs, extra_flags, shim, libs):
+    """coverage build (tools/coverage.sh only, never a registered check): gcc --coverage in the directory $VERIF_COV (outside /repo and /verif)"""
+    d = os.path.join(os.environ["VERIF_COV"], name)
+    exe = os.path.join(d, name)
+    with open(os.path.join(os.environ["VERIF_COV"], "build.lock"), "w") as lk:
+        fcntl.flock(lk, fcntl.LOCK_EX)
+        if os.path.exists(exe):
+            return exe
+        work = os.path.join(d, "src")
+        shutil.copytree(os.path.join(REPO, "src"), work, ignore=shutil.ignore_patterns("*.o", "base64u.*", "obj", "libs"))
+        subprocess.run(["make", "-s", "-C", work, "base64u.c"], check=True)
+        cmd = ["gcc", "-O0", "-g", "--coverage"] + REPO_CFLAGS + list(extra_flags) + ["-I", work, "-I", os.path.join(VERIF, "harness")]
+        if shim:
+            cmd += ["-include", os.path.join(VERIF, "harness", shim)]
+        cmd += hs + [os.path.join(work, f) for f in repo_srcs] + ["-o", exe] + list(libs)
+        p = subprocess.run(cmd, cwd=d, stdout=subprocess.PIPE, stderr=subprocess.STDOUT, text=True)
+        if p.returncode != 0:
+            raise BuildError(p.stdout[-3000:])
     return exe
 
 
@@ -422,6 +445,8 @@ class Check:
         }
         os.makedirs(os.path.join(VERIF, "evidence"), exist_ok=True)
         p = os.path.join(VERIF, "evidence", self.prop + ".json")
+        if os.environ.get("VERIF_COV"):
+            p = os.path.join(os.environ["VERIF_COV"], self.prop + ".evidence.json")      # coverage runs never touch evidence/
         with open(p + ".tmp", "w") as f:
             json.dump(ev, f, indent=1, default=str)
         os.replace(p + ".tmp", p)
